@@ -233,7 +233,10 @@ def blockzero_class(pre, msgs, B, trailing_newline=True):
         complete = sum(1 for k, o in enumerate(offs)
                        if (offs[k + 1] if k + 1 < len(offs) else len(data)) <= len(block0) - 1 or
                        ((offs[k + 1] if k + 1 < len(offs) else len(data)) == len(data) and len(data) <= len(block0)))
-        lines = block0.count(b"\n")
+        # the implementation counts the complete lines of block zero and also a last line that runs past the end of
+        # block zero (or ends at the end of the file without a newline); calibrated on the unchanged tree: two short lines
+        # followed by a 70 kB line are admitted, one short line followed by it is not
+        lines = block0.count(b"\n") + (1 if not block0.endswith(b"\n") else 0)
         if lines < 3 or complete < 2:
             return "fewer-than-min-lines-or-syslines-in-block-zero-of-8096+"
     return None
